@@ -16,6 +16,9 @@ enum
 	MAX_PACKET_RELIABLE_SEQUENCE_HEADER_BITS = 32 /*PackedHeader*/ + MaxSequenceHistoryLength,
 	MAX_PACKET_INFO_HEADER_BITS = 1 /*bHasPacketInfo*/ + NumBitsForJitterClockTimeInHeader + 1 /*bHasServerFrameTime*/ + 8 /*ServerFrameTime*/,
 	MAX_PACKET_HEADER_BITS = MAX_PACKET_RELIABLE_SEQUENCE_HEADER_BITS + MAX_PACKET_INFO_HEADER_BITS,
+	MAX_PACKET_HANDLER_BITS = 32 /*MagicHeader*/ + 2 /*SessionID*/ + 3 /*ClientID*/ + 1 /*bHandshakePacket*/ + 1 /*termination bit*/,
+	// Largest bunch (header + payload) that fits into an empty packet, whatever the current ack history length is
+	MAX_SINGLE_BUNCH_SIZE_BITS = (UTCP_MAX_PACKET * 8) - MAX_PACKET_TRAILER_BITS - MAX_PACKET_HEADER_BITS - MAX_PACKET_HANDLER_BITS,
 	// MAX_BUNCH_HEADER_BITS = 256,
 	// MaxPacketHandlerBits = 2,
 	// MAX_SINGLE_BUNCH_SIZE_BITS = (UTCP_MAX_PACKET * 8) - MAX_BUNCH_HEADER_BITS - MAX_PACKET_TRAILER_BITS - MAX_PACKET_HEADER_BITS - MaxPacketHandlerBits,
@@ -486,6 +489,29 @@ static int32_t WriteBitsToSendBufferInternal(struct utcp_connection* fd, const u
 // UNetConnection::SendRawBunch
 int32_t SendRawBunch(struct utcp_connection* fd, struct utcp_bunch* bunch)
 {
+	// Validate the request before any state is touched: a refused send must leave the connection as it was.
+	if (bunch->ChIndex >= DEFAULT_MAX_CHANNEL_SIZE)
+	{
+		return -3;
+	}
+	if (!fd->channels.Channels[bunch->ChIndex] && !bunch->bOpen)
+	{
+		return -2;
+	}
+
+	// The header size does not depend on the sequence value, so measure it with a placeholder first.
+	uint8_t buffer[UTCP_MAX_PACKET];
+	struct bitbuf bitbuf;
+	bunch->ChSequence = 0;
+	if (!bitbuf_write_init(&bitbuf, buffer, sizeof(buffer)) || !utcp_bunch_write_header(bunch, &bitbuf))
+	{
+		return -1;
+	}
+	if (bitbuf.num + bunch->DataBitsLen > MAX_SINGLE_BUNCH_SIZE_BITS)
+	{
+		return -4;
+	}
+
 	struct utcp_channel* utcp_channel = utcp_get_channel(fd, bunch, false);
 	if (!utcp_channel)
 	{
@@ -494,7 +520,6 @@ int32_t SendRawBunch(struct utcp_connection* fd, struct utcp_bunch* bunch)
 	utcp_note_close(fd, utcp_channel, bunch);
 
 	//  UChannel::PrepBunch
-	bunch->ChSequence = 0;
 	if (bunch->bReliable)
 	{
 		/*
@@ -505,20 +530,9 @@ int32_t SendRawBunch(struct utcp_connection* fd, struct utcp_bunch* bunch)
 		}
 		*/
 		bunch->ChSequence = ++utcp_channel->OutReliable;
-	}
 
-	uint8_t buffer[UTCP_MAX_PACKET];
-	struct bitbuf bitbuf;
-	if (!bitbuf_write_init(&bitbuf, buffer, sizeof(buffer)))
-	{
-		assert(false);
-		return -1;
-	}
-
-	if (!utcp_bunch_write_header(bunch, &bitbuf))
-	{
-		assert(false);
-		return -1;
+		bitbuf_write_init(&bitbuf, buffer, sizeof(buffer));
+		utcp_bunch_write_header(bunch, &bitbuf);
 	}
 
 	// If the bunch does not fit in the current packet,
